@@ -271,6 +271,8 @@ mod wrapping;
 #[cfg(substrate_fixed_verif)]
 #[doc(hidden)]
 pub mod verif_hooks;
+#[cfg(substrate_fixed_verif)]
+pub use crate::from_str::verif_kernels;
 
 use crate::{
     arith::MulDivOverflow,
